@@ -35,6 +35,16 @@ for m in . ./loader ./generic_test ./external_jsonlib_test ./issue_test ./fuzz; 
   echo "$out" >> "$log"
   # only tests of the pinned stable-pass list count (a timing test outside it fails on the unchanged tree too)
   bad=$(echo "$out" | sed -n 's/^ *--- FAIL: \([^ /]*\).*/\1/p' | sort -u | grep -Fx -f /verif/tools/stable_pass.txt)
+  # a failing stable test is re-run alone (timing tests such as TestPretouchSynteaRoot fail on a busy machine)
+  still=""
+  for tname in $bad; do
+    okk=0
+    for try in 1 2 3; do
+      if (cd $m && go test -vet=off -count=1 -timeout 30m -run "^${tname}\$" ./... >>"$log" 2>&1); then okk=1; break; fi
+    done
+    [ $okk -eq 1 ] || still="$still $tname"
+  done
+  bad=$still
   if echo "$out" | grep -q "^panic:\|build failed\|setup failed"; then bad="$bad panic-or-build"; fi
   if [ -n "$bad" ]; then fails=$((fails+1)); say "$id: suite failure in module $m: $bad"; fi
 done
